@@ -10,6 +10,14 @@
  *                                                                          cannot encode, a width/precision that overflows int
  *   A <start> <old> <fmt> <nargs> <arg>... T ...                           print_to_with on a plain String in a forked child; an argument `Z 0` is the String itself
  *                                                                          (aliasing).  Prints `O A oob=0 exc=<e>` or, when the child dies, `O A oob=1`
+ *   V <start> <old> <fmt> <nargs> <arg>... T 0                             a format with `*` as width (outside the property grammar as checked, inside C's): forked child,
+ *                                                                          recording sink; `O V exc=<e> calls=<...>`; oracle: the text C printf writes when `*` consumes an
+ *                                                                          argument of its own -> X sig=fmt-star-width (known finding KF-C14-star-width)
+ *   B <start> <old> <fmt> <nargs> <arg>... T ...                           plain String sink, start may lie BEYOND strlen(old): `O B exc=<e> pos=<p> cstr=<c_str afterwards>`;
+ *                                                                          oracle: strlen == returned position -> X sig=fmt-start-beyond-end (KF-C14-start-beyond-end)
+ *   Q <start> <old> <fmt> <nargs> <arg>... T ...                           File sink, the live heap bytes are measured around the call (second run of the same call, so that
+ *                                                                          stdio / unwinder one-time allocations are out): `O Q exc=<e> leaked=<bytes>`; oracle: 0
+ *                                                                          -> X sig=fmt-buf-leak (KF-C14-fmtbuf-leak: fmt_buf is not freed on the throw paths)
  *   arg ::= i <int64> | f <16 hex digits: bits of the double> | s <bytes> | A <n> <arg>... | U <n> <arg>... | L <n> <arg>...
  *         | H <n> (<key> <val>)*n   Table Int -> scalar, `set` in this order      | R <n> (<key> <val>)*n   Tree Int -> scalar
  *         | G 3 i <start> i <stop> i <step>   Range                              | C <n> <arg>...          Slice over an Array of n scalars
@@ -261,8 +269,10 @@ static void ref_show(ArgD* a, Buf* out) {
     case 'G': {   /* the values a Range yields: start, start+step, ... below stop (step > 0); stop-1, stop-1+step, ... not below start (step < 0) */
       int64_t st = a->items[0]->i, sp = a->items[1]->i, se = a->items[2]->i; int first = 1;
       putf(out, "<'Range' At 0x%p [", a->obj);
-      if (se > 0) for (int64_t v = st; v < sp; v += se) { if (!first) buf_puts(out, ", "); first = 0; putf(out, "%i", (int)v); }
-      if (se < 0) for (int64_t v = sp - 1; v >= st; v += se) { if (!first) buf_puts(out, ", "); first = 0; putf(out, "%i", (int)v); }
+      /* each value is shown as an Int shows itself (the property: "its elements' own show text"): %ld of the 64-bit value — fix 78c2117; the OLD
+         Range_Show printed them with "%i" (low 32 bits) and is flagged here as an ordinary fmt-output violation */
+      if (se > 0) for (int64_t v = st; v < sp; v += se) { if (!first) buf_puts(out, ", "); first = 0; putf(out, "%ld", (long)v); }
+      if (se < 0) for (int64_t v = sp - 1; v >= st; v += se) { if (!first) buf_puts(out, ", "); first = 0; putf(out, "%ld", (long)v); }
       buf_puts(out, "]>"); break; }
     case 'H': {   /* each pair once, in the order the Table's own iteration gives; value = the LAST one set for that key in the op */
       putf(out, "<'Table' At 0x%p {", a->obj);
@@ -368,6 +378,7 @@ static int split(char* l, char*** out) {
 typedef struct { int start; Buf old, fmt; int nargs; ArgD** args; } OpD;
 static void op_free(OpD* o) { for (int k = 0; k < o->nargs; k++) arg_free(o->args[k]); free(o->args); buf_free(&o->old); buf_free(&o->fmt); }
 /* tokens after the op letter; *k ends after the arguments */
+static int allow_beyond = 0;   /* op B: the start position may exceed strlen(old) */
 static int parse_op(char** tok, int ntok, int* k, OpD* o) {
   memset(o, 0, sizeof *o);
   if (ntok < 5) return 0;
@@ -376,7 +387,7 @@ static int parse_op(char** tok, int ntok, int* k, OpD* o) {
   if (!unhex(tok[2], &o->old) || has_nul(&o->old)) return 0;
   if (!unhex(tok[3], &o->fmt) || has_nul(&o->fmt)) return 0;
   if (!parse_i64(tok[4], &na) || na < 0 || na > 1000) return 0;
-  if ((size_t)st > o->old.n) return 0;
+  if ((size_t)st > o->old.n && !(allow_beyond && (size_t)st <= o->old.n + 64)) return 0;
   o->start = (int)st; o->args = calloc((size_t)na + 1, sizeof(ArgD*));
   *k = 5;
   for (int64_t j = 0; j < na; j++) { ArgD* a = parse_arg(tok, ntok, k); if (!a) return 0; o->args[o->nargs++] = a; }
@@ -695,6 +706,152 @@ static void run_A(OpD* op, size_t line) {
   }
 }
 
+/* ------------------------------------------------------------------ ops V, B, Q: the witnesses of KF-C14-star-width / -start-beyond-end / -fmtbuf-leak */
+size_t __sanitizer_get_current_allocated_bytes(void);
+
+static var op_args_tuple(OpD* op, var** items_out) {
+  for (int k = 0; k < op->nargs; k++) build(op->args[k]);
+  var* items = calloc((size_t)op->nargs + 1, sizeof(var));
+  for (int k = 0; k < op->nargs; k++) items[k] = op->args[k]->obj;
+  items[op->nargs] = Terminal;
+  *items_out = items;
+  return NULL;
+}
+
+/* what C printf writes for a format in which `*` takes the width from an argument of its own: literal | %% | % flags* (digits*|*) lenmod? conv with
+   conv in d i u o x X (an int, or a long with `l`) or s; every `*` and every conversion consumes the next argument in order.  Returns 0 when the
+   format or the arguments do not fit this little grammar. */
+static int ref_star(const OpD* op, Buf* out) {
+  const unsigned char* f = op->fmt.p; size_t n = op->fmt.n, i = 0; int ka = 0; char spec[64];
+  while (i < n) {
+    if (f[i] != '%') { buf_put(out, f + i, 1); i++; continue; }
+    if (i + 1 < n && f[i+1] == '%') { buf_puts(out, "%"); i += 2; continue; }
+    size_t s0 = i; i++;
+    while (i < n && strchr("-+ #0", f[i])) i++;
+    int star = 0;
+    if (i < n && f[i] == '*') { star = 1; i++; } else while (i < n && f[i] >= '0' && f[i] <= '9') i++;
+    int lng = 0; if (i < n && f[i] == 'l') { lng = 1; i++; }
+    if (i >= n || !strchr("diuoxXs", f[i]) || i - s0 + 2 > sizeof spec) return 0;
+    char conv = (char)f[i]; i++;
+    memcpy(spec, f + s0, i - s0); spec[i - s0] = 0;
+    int w = 0;
+    if (star) { if (ka >= op->nargs || op->args[ka]->kind != 'i') return 0; w = (int)op->args[ka++]->i; }
+    if (ka >= op->nargs) return 0;
+    ArgD* a = op->args[ka++];
+    if (conv == 's') { if (a->kind != 's' || lng) return 0; if (star) putf(out, spec, w, (char*)a->s.p); else putf(out, spec, (char*)a->s.p); }
+    else {
+      if (a->kind != 'i') return 0;
+      if (star) { if (lng) putf(out, spec, w, (long)a->i); else putf(out, spec, w, (int)a->i); }
+      else { if (lng) putf(out, spec, (long)a->i); else putf(out, spec, (int)a->i); }
+    }
+  }
+  return 1;
+}
+
+static void run_V(OpD* op, size_t line) {
+  fflush(stdout);
+  pid_t pid = fork();
+  if (pid == 0) {
+    int dn = open("/dev/null", 1); if (dn >= 0) { dup2(dn, 2); }
+    alarm(20);
+    var* items; op_args_tuple(op, &items);
+    var args = $(Tuple, items);
+    rec_clear();
+    var inner = new_raw(String, $S((char*)op->old.p));
+    var rec = $(RecSink, inner);
+    var exc; int pos = -1;
+    V_TRY(exc, pos = print_to_with(rec, op->start, (const char*)op->fmt.p, args));
+    (void)pos;
+    Buf cl = {0}; buf_reset(&cl);
+    if (rec_n == 0) buf_puts(&cl, "-");
+    for (size_t k = 0; k < rec_n; k++) {
+      CallD* c = &rec_calls[k]; char t[64];
+      if (k) buf_puts(&cl, ";");
+      hex_of((unsigned char*)c->frag, strlen(c->frag), &cl); buf_puts(&cl, ":");
+      switch (c->vk) {
+        case 'n': buf_puts(&cl, "n"); break;
+        case 's': buf_puts(&cl, "s"); hex_of((unsigned char*)c->s, strlen(c->s), &cl); break;
+        case 'i': snprintf(t, sizeof t, "i%" PRId64, c->i); buf_puts(&cl, t); break;
+        case 'd': snprintf(t, sizeof t, "d%016" PRIx64, c->bits); buf_puts(&cl, t); break;
+        case 'p': buf_puts(&cl, "p"); break;
+      }
+    }
+    O("V exc=%s calls=%s", v_exc_name(exc), (char*)cl.p);
+    Buf want = {0}; buf_reset(&want); buf_put(&want, op->old.p, (size_t)op->start);
+    if (ref_star(op, &want)) {
+      const char* val = ((struct String*)inner)->val; if (!val) val = "";
+      int used = 0; for (size_t k = 0; k < rec_n; k++) if (rec_calls[k].vk != 'n') used++;
+      if (exc != NULL || strlen(val) != want.n || memcmp(val, want.p, want.n) != 0) {
+        Buf a = {0}, b = {0}; buf_reset(&a); buf_reset(&b); hex_of((unsigned char*)val, strlen(val), &a); hex_of(want.p, want.n, &b);
+        X("sig=fmt-star-width line=%zu what=`*` width: C printf writes %s (the `*` consumes an argument of its own), the String sink holds %s after %s — print_to_with passed one vararg per specification (%d of %d arguments fetched)",
+          line, (char*)b.p, (char*)a.p, v_exc_name(exc), used, op->nargs);
+      }
+    } else I("V line=%zu format outside the reference of op V", line);
+    fflush(stdout);
+    _exit(0);
+  }
+  int st = 0; waitpid(pid, &st, 0);
+  I("V line=%zu status=%d", line, st);
+  if (WIFSIGNALED(st) || (WIFEXITED(st) && WEXITSTATUS(st) != 0)) { O("V died"); X("sig=fmt-star-width line=%zu what=print_to_with with a `*` width died (wait status %d)", line, st); }
+}
+
+static void run_B(OpD* op, size_t line) {
+  fflush(stdout);
+  pid_t pid = fork();
+  if (pid == 0) {
+    int dn = open("/dev/null", 1); if (dn >= 0) { dup2(dn, 2); }
+    alarm(20);
+    var* items; op_args_tuple(op, &items);
+    var args = $(Tuple, items);
+    var s = new_raw(String, $S((char*)op->old.p));
+    var exc; int pos = -1;
+    V_TRY(exc, pos = print_to_with(s, op->start, (const char*)op->fmt.p, args));
+    const char* val = ((struct String*)s)->val; if (!val) val = "";
+    Buf a = {0}; buf_reset(&a); hex_of((unsigned char*)val, strlen(val), &a);
+    if (exc == NULL) O("B exc=none pos=%d cstr=%s", pos, (char*)a.p); else O("B exc=%s pos=- cstr=%s", v_exc_name(exc), (char*)a.p);
+    if (exc == NULL && pos > op->start && strlen(val) != (size_t)pos)
+      X("sig=fmt-start-beyond-end line=%zu what=print_to_with from start %d (strlen %zu) returned %d = start + %d characters written, but the String's value is %s (length %zu): the text lies behind the old terminator",
+        line, op->start, op->old.n, pos, pos - op->start, (char*)a.p, strlen(val));
+    fflush(stdout);
+    _exit(0);
+  }
+  int st = 0; waitpid(pid, &st, 0);
+  I("B line=%zu status=%d", line, st);
+  if (WIFSIGNALED(st) || (WIFEXITED(st) && WEXITSTATUS(st) != 0)) { O("B died"); X("sig=fmt-crash line=%zu what=print_to_with from a start position beyond the end died (wait status %d)", line, st); }
+}
+
+static void run_Q(OpD* op, size_t line) {
+  fflush(stdout); fflush(tmp_fp);
+  pid_t pid = fork();
+  if (pid == 0) {
+    int dn = open("/dev/null", 1); if (dn >= 0) { dup2(dn, 2); }
+    alarm(20);
+    var* items; op_args_tuple(op, &items);
+    var args = $(Tuple, items);
+    var f = new_raw(File);
+    ((struct File*)f)->file = tmp_fp;
+    var exc = NULL; int pos = -1; size_t before = 0, after = 0;
+    for (int round = 0; round < 2; round++) {     /* round 0 warms up stdio, the unwinder, the exception machinery */
+      fflush(tmp_fp);
+      before = __sanitizer_get_current_allocated_bytes();
+      V_TRY(exc, pos = print_to_with(f, op->start, (const char*)op->fmt.p, args));
+      fflush(tmp_fp);
+      after = __sanitizer_get_current_allocated_bytes();
+    }
+    (void)pos;
+    long leaked = (long)after - (long)before;
+    O("Q exc=%s leaked=%ld", v_exc_name(exc), leaked);
+    if (leaked != 0)
+      X("sig=fmt-buf-leak line=%zu what=%ld heap bytes stay allocated after print_to_with left with %s (strlen(fmt)+1 = %zu: fmt_buf is freed only before `return pos;`)",
+        line, leaked, v_exc_name(exc), op->fmt.n + 1);
+    fflush(stdout);
+    _exit(0);
+  }
+  int st = 0; waitpid(pid, &st, 0);
+  I("Q line=%zu status=%d", line, st);
+  if (WIFSIGNALED(st) || (WIFEXITED(st) && WEXITSTATUS(st) != 0)) { O("Q died"); X("sig=fmt-crash line=%zu what=op Q died (wait status %d)", line, st); }
+}
+
 int main(int argc, char** argv) {
   v_init();
   if (argc < 2) { fprintf(stderr, "usage: h_fmt <opfile>\n"); return 2; }
@@ -712,8 +869,10 @@ int main(int argc, char** argv) {
     if (v_skippable(l)) continue;
     char* copy = strdup(l); char** tok; int ntok = split(copy, &tok);
     OpD op; int k = 0; int ok = 0;
-    if (ntok > 0 && (!strcmp(tok[0], "P") || !strcmp(tok[0], "K") || !strcmp(tok[0], "J") || !strcmp(tok[0], "A"))) {
+    if (ntok > 0 && (!strcmp(tok[0], "P") || !strcmp(tok[0], "K") || !strcmp(tok[0], "J") || !strcmp(tok[0], "A") || !strcmp(tok[0], "V") || !strcmp(tok[0], "B") || !strcmp(tok[0], "Q"))) {
+      allow_beyond = tok[0][0] == 'B';
       ok = parse_op(tok, ntok, &k, &op);
+      allow_beyond = 0;
       if (ok && tok[0][0] != 'A') for (int j = 0; j < op.nargs; j++) if (has_kind(op.args[j], 'Z')) ok = 0;     /* the sink as an argument: op A only */
       /* the table: T <n> then 3n tokens — checked for shape only */
       if (ok) {
@@ -731,7 +890,13 @@ int main(int argc, char** argv) {
           buf_free(&t);
         } else ok = 0;
       }
-      if (!ok) O("bad-op"); else if (tok[0][0] == 'J') run_J(&op, li + 1); else if (tok[0][0] == 'A') run_A(&op, li + 1); else run_P(&op, li + 1, tok[0][0] == 'K', 0);
+      if (!ok) O("bad-op"); else if (tok[0][0] == 'J') run_J(&op, li + 1); else if (tok[0][0] == 'A') run_A(&op, li + 1);
+      else if (tok[0][0] == 'V') run_V(&op, li + 1);
+      else if (tok[0][0] == 'B' || tok[0][0] == 'Q') {
+        SegD* sg = NULL; int ns = parse_fmt(op.fmt.p, op.fmt.n, &sg, 0);
+        if (ns < 0) O("bad-op"); else { free(sg); if (tok[0][0] == 'B') run_B(&op, li + 1); else run_Q(&op, li + 1); }
+      }
+      else run_P(&op, li + 1, tok[0][0] == 'K', 0);
       op_free(&op);
     } else if (ntok > 0 && !strcmp(tok[0], "M")) {
       ok = parse_op(tok, ntok, &k, &op) && k == ntok;
